@@ -37,6 +37,51 @@ package msg
 //@   // bounded buffer (C15): at most limitPerSender+1 messages of one sender are kept per topic
 //@   invariant [bounded] forall s uint16 :: { dom(this.messageCountPerSender, s) } s in this.messageCountPerSender ==> 0 <= this.messageCountPerSender[s] && this.messageCountPerSender[s] <= limitPerSender + 1
 //@
+// ---- entry points and helpers: safety under arbitrary interleavings (C10) --------------------------------------------
+
+//@ func (*Box).initialize
+//@   props C10 C14 C15
+//@   modifies b.pendingMessages, b.startedSending, b.totalInFlightTopicsBySender, b.stopClock
+//@   ensures  b.pendingMessages != nil && b.startedSending != nil && b.totalInFlightTopicsBySender != nil && b.stopClock != nil
+//@   ensures [stable] (b.pendingMessages == old(b.pendingMessages) || fresh(b.pendingMessages)) &&
+//@                    (b.startedSending == old(b.startedSending) || fresh(b.startedSending)) &&
+//@                    (b.totalInFlightTopicsBySender == old(b.totalInFlightTopicsBySender) || fresh(b.totalInFlightTopicsBySender))
+//@
+//@ func (*Box).hasStartedSending
+//@   props C10 C14 C15
+//@   modifies b.pendingMessages, b.startedSending, b.totalInFlightTopicsBySender, b.stopClock, guarded(b.lock)
+//@   ensures  b.pendingMessages != nil && b.startedSending != nil && b.totalInFlightTopicsBySender != nil
+//@
+//@ func (*Box).markTopicForSender
+//@   props C10 C14 C15
+//@   requires msg != nil && b.totalInFlightTopicsBySender != nil
+//@   modifies guarded(b.lock)
+//@
+//@ func (*Box).getOrCreateMessagesByTopic
+//@   props C10 C14 C15
+//@   modifies b.pendingMessages, b.startedSending, b.totalInFlightTopicsBySender, b.stopClock, guarded(b.lock)
+//@   ensures  result != nil && result.messageCountPerSender != nil && result.logger != nil
+//@   ensures  b.pendingMessages != nil && b.startedSending != nil && b.totalInFlightTopicsBySender != nil
+//@
+//@ func (*storedMessages).add
+//@   props C10 C14 C15
+//@   requires msg != nil && sm.logger != nil && sm.messageCountPerSender != nil
+//@   modifies guarded(sm.lock)
+//@
+//@ func (*Box).storeOrForward
+//@   props C10 C14 C15
+//@   requires msg != nil
+//@
+//@ func (*Box).HandleMessage
+//@   props C10 C14 C15
+//@   requires msg != nil
+//@
+//@ func (*Box).Send
+//@   props C14 C15
+//@
+//@ func (*Box).maybeGC
+//@   props C15
+
 // ---- bounded buffer that gives resources back (C15): sequential reading (histories of calls) ---------------------------
 // The invariants below relate several maps that are updated in separate critical sections of one call; they are stated
 // between calls (requires/ensures of the operations), not as monitor invariants.
@@ -57,8 +102,8 @@ package msg
 //@                                         s1 in b.totalInFlightTopicsBySender && s2 in b.totalInFlightTopicsBySender && s1 != s2 ==> b.totalInFlightTopicsBySender[s1] != b.totalInFlightTopicsBySender[s2])
 //@ spec macro boxInv(b *Box) bool = initialised(b) && wellFormed(b) && inflightSound(b) && exclusive(b)
 
-//@ func (*Box).initialize
-//@   props C10 C14 C15
+//@ func@seq (*Box).initialize
+//@   props C14 C15
 //@   modifies b.pendingMessages, b.startedSending, b.totalInFlightTopicsBySender, b.stopClock
 //@   ensures  [init] initialised(b)
 //@   ensures  [noop] old(b.pendingMessages != nil) ==> b.pendingMessages == old(b.pendingMessages) && b.startedSending == old(b.startedSending) &&
@@ -66,16 +111,14 @@ package msg
 //@   ensures  [empty] old(b.pendingMessages == nil) ==> (forall t string :: !(t in b.pendingMessages)) && (forall t string :: !(t in b.startedSending)) &&
 //@                     (forall s uint16 :: !(s in b.totalInFlightTopicsBySender))
 //@
-//@ func (*Box).hasStartedSending
-//@   props C10 C14 C15
-//@   seq
+//@ func@seq (*Box).hasStartedSending
+//@   props C14 C15
 //@   requires initialised(b)
 //@   modifies nothing
 //@   ensures  [started] result == (string(topic) in b.startedSending)
 //@
-//@ func (*Box).markTopicForSender
-//@   props C10 C14 C15
-//@   seq
+//@ func@seq (*Box).markTopicForSender
+//@   props C14 C15
 //@   requires msg != nil && initialised(b) && wellFormed(b)
 //@   modifies b.totalInFlightTopicsBySender[*], heap:MD!string!empty, heap:MV!string!empty
 //@   ensures [marked] msg.Source in b.totalInFlightTopicsBySender && b.totalInFlightTopicsBySender[msg.Source] != nil && string(msg.Topic) in b.totalInFlightTopicsBySender[msg.Source]
@@ -83,9 +126,8 @@ package msg
 //@                      ((s in b.totalInFlightTopicsBySender && t in b.totalInFlightTopicsBySender[s]) == old(s in b.totalInFlightTopicsBySender && t in b.totalInFlightTopicsBySender[s]))
 //@   ensures [well-formed] wellFormed(b)
 //@
-//@ func (*Box).getOrCreateMessagesByTopic
-//@   props C10 C14 C15
-//@   seq
+//@ func@seq (*Box).getOrCreateMessagesByTopic
+//@   props C14 C15
 //@   requires initialised(b) && wellFormed(b)
 //@   modifies b.pendingMessages[*]
 //@   ensures  [result]  result != nil && result.messageCountPerSender != nil && result.logger != nil &&
@@ -96,9 +138,8 @@ package msg
 //@                        (t in b.pendingMessages) == old(t in b.pendingMessages) && b.pendingMessages[t] == old(b.pendingMessages[t])
 //@   ensures  [well-formed] wellFormed(b)
 //@
-//@ func (*storedMessages).add
-//@   props C10 C14 C15
-//@   seq
+//@ func@seq (*storedMessages).add
+//@   props C14 C15
 //@   requires msg != nil && sm.logger != nil && sm.messageCountPerSender != nil
 //@   modifies guarded(sm.lock)
 //@   ensures [counted] msg.Source in sm.messageCountPerSender
@@ -107,9 +148,8 @@ package msg
 //@                       same(sm.messages, old(sm.messages)) && sm.messageCountPerSender[msg.Source] == old(sm.messageCountPerSender[msg.Source])
 //@   ensures [map]     sm.messageCountPerSender == old(sm.messageCountPerSender)
 //@
-//@ func (*Box).storeOrForward
-//@   props C10 C14 C15
-//@   seq
+//@ func@seq (*Box).storeOrForward
+//@   props C14 C15
 //@   requires msg != nil && (fresh0(b) || boxInv(b))
 //@   modifies b.pendingMessages, b.startedSending, b.totalInFlightTopicsBySender, b.stopClock, b.pendingMessages[*], b.totalInFlightTopicsBySender[*], heap:MD!string!empty, heap:MV!string!empty,
 //@            heap:MV!string!p_msg_storedMessages, heap:F!storedMessages!messages, heap:F!storedMessages!lastUsed, heap:MD!uint16!int, heap:MV!uint16!int, heap:E!p_tss_IncMessage, heap:MV!uint16!m_string_empty, heap:MD!uint16!m_string_empty, heap:MD!string!p_msg_storedMessages
@@ -123,9 +163,8 @@ package msg
 //@   ensures  [started-stay-released] forall t string :: { dom(b.startedSending, t) } old(b.startedSending != nil && t in b.startedSending) ==>
 //@                                      (t in b.startedSending) && !(t in b.pendingMessages)
 //@
-//@ func (*Box).HandleMessage
-//@   props C10 C14 C15
-//@   seq
+//@ func@seq (*Box).HandleMessage
+//@   props C14 C15
 //@   requires msg != nil && (fresh0(b) || boxInv(b))
 //@   modifies b.pendingMessages, b.startedSending, b.totalInFlightTopicsBySender, b.stopClock, b.pendingMessages[*], b.totalInFlightTopicsBySender[*], heap:MD!string!empty, heap:MV!string!empty,
 //@            heap:MV!string!p_msg_storedMessages, heap:F!storedMessages!messages, heap:F!storedMessages!lastUsed, heap:MD!uint16!int, heap:MV!uint16!int, heap:E!p_tss_IncMessage, heap:MV!uint16!m_string_empty, heap:MD!uint16!m_string_empty, heap:MD!string!p_msg_storedMessages
@@ -138,17 +177,15 @@ package msg
 //@   ensures  [started-stay-released] forall t string :: { dom(b.startedSending, t) } old(b.startedSending != nil && t in b.startedSending) ==>
 //@                                      (t in b.startedSending) && !(t in b.pendingMessages)
 
-//@ func (*storedMessages).senders
+//@ func@seq (*storedMessages).senders
 //@   props C15
-//@   seq
 //@   requires sm.messageCountPerSender != nil
 //@   modifies nothing
 //@   ensures [all]  forall s uint16 :: { dom(sm.messageCountPerSender, s) } s in sm.messageCountPerSender ==> s in elems(result, len(result))
 //@   loop 0: invariant [collected] forall s uint16 :: { dom(visited(sm.messageCountPerSender), s) } s in visited(sm.messageCountPerSender) ==> s in elems(res, len(res))
 //@
-//@ func (*storedMessages).lastUse
+//@ func@seq (*storedMessages).lastUse
 //@   props C15
-//@   seq
 //@   modifies nothing
 //@   ensures result == sm.lastUsed
 
@@ -158,9 +195,8 @@ package msg
 //@ spec macro expiredStarted(b *Box, t string, now uint64, e int64) bool = t in b.startedSending && int64(now - b.startedSending[t]) > e
 
 //@ // release on expiry (C15): mark finds every topic whose last use (buffered) or last send (started) is more than e epochs old, and only those
-//@ func (*Box).mark
+//@ func@seq (*Box).mark
 //@   props C15
-//@   seq
 //@   requires initialised(b) && wellFormed(b)
 //@   modifies nothing
 //@   ensures [expired-buffered] forall t string :: { dom(b.pendingMessages, t) } expiredBuffered(b, t, now, int64(epochsAfterWhichWeGC)) ==> t in elems(result, len(result))
@@ -173,9 +209,8 @@ package msg
 //@                                (forall t string :: t in elems(topics2Delete, len(topics2Delete)) ==> expiredBuffered(b, t, now, int64(epochsAfterWhichWeGC)) || expiredStarted(b, t, now, int64(epochsAfterWhichWeGC)))
 //@
 //@ // sweep releases everything recorded for the given topics
-//@ func (*Box).sweep
+//@ func@seq (*Box).sweep
 //@   props C15
-//@   seq
 //@   requires boxInv(b)
 //@   modifies b.pendingMessages[*], b.startedSending[*], heap:MD!string!empty, heap:MV!string!empty
 //@   ensures  [inv-init]  initialised(b)
@@ -212,9 +247,8 @@ package msg
 
 //@ // a collection is due when the last one is at least e = GCExpire/GCSweep epochs old; then every topic that is expired at
 //@ // the current epoch is released, and nothing else is touched
-//@ func (*Box).maybeGC
+//@ func@seq (*Box).maybeGC
 //@   props C15
-//@   seq
 //@   requires fresh0(b) || boxInv(b)
 //@   modifies b.lastGC, b.pendingMessages, b.startedSending, b.totalInFlightTopicsBySender, b.stopClock, b.pendingMessages[*], b.startedSending[*], heap:MD!string!empty, heap:MV!string!empty, heap:MV!string!p_msg_storedMessages, heap:MV!string!uint64
 //@   ensures  [inv-init]  initialised(b)
@@ -240,9 +274,8 @@ package msg
 //@     assert [clock]    now == old(b.currentGCEpochNum) && lastGC == old(b.lastGC)
 
 //@ // the drain of the messages that were buffered for the topic (deferred closure of Send)
-//@ func (*Box).Send$1
+//@ func@seq (*Box).Send$1
 //@   props C14 C15
-//@   seq
 //@   // that the drained messages are non-nil (needed by HandleMessage) is not carried through the loop: a buffer that was
 //@   // detached from pendingMessages shares no array with the buffers that HandleMessage appends to, which these contracts
 //@   // do not express; the obligation requires@HandleMessage in this closure is therefore left undecided (never claimed)
@@ -263,9 +296,8 @@ package msg
 //@   loop 0: invariant [stay] forall t string :: { dom(b.startedSending, t) } old(t in b.startedSending) ==> (t in b.startedSending) && !(t in b.pendingMessages)
 //@
 //@ // release on start (C15): after Send the topic is neither buffered nor in any sender's in-flight set
-//@ func (*Box).Send
+//@ func@seq (*Box).Send
 //@   props C14 C15
-//@   seq
 //@   requires fresh0(b) || boxInv(b)
 //@   ensures  [inv-init]  initialised(b)
 //@   ensures  [inv-wf]    wellFormed(b)
